@@ -8,7 +8,7 @@ The driver builds the real objects through the public constructors/attributes, c
 (snapshot taken by plain attribute access, never by sugar's __eq__), writes with BioBasket.write(fmt='sjson'), reads with
 sugar.read (format auto-detected) and returns the snapshot of what came back.
 """
-import os, json, tempfile
+import os, json, tempfile, shutil
 from framework import coq_bs, coq_z
 
 ID = 'C14'
@@ -21,7 +21,8 @@ RULE = ('object graphs built from an abstract tree: (x) the exhaustive box of al
         'with tied sort keys), metadata trees of depth <= 4 over None/bool/int (up to 2^200)/float (incl. nan, inf, -0.0)/str (quotes, backslashes, '
         'control and non-ASCII Latin-1 characters)/list/plain dict/Attr/Meta, 0-3 features with 1-3 locations, keys drawn from a pool containing '
         "private keys ('_x', '_', '_fmt', '_fmtcomment', '_cls'), constructor parameter names, 'self', 'str' and the excluded F20 names, each through a "
-        "random transport: write/read of a file (fmt given / from the extension, encoding default / utf-8 / latin-1 / ascii) or "
+        "random transport: write/read of a file (fmt given / from the extension, encoding default / utf-8 / latin-1 / ascii), read through a "
+        "glob pattern matching exactly the written file, write(..., archive='zip'|'tar'|'gztar'|True) + read of the produced archive, or "
         'tofmtstr -> fromfmtstr (with and without fmt); (m) a mutation stream leaving the domain (lower-case residues, missing id, mixed strands, '
         "unsorted locations, plain dict directly inside Attr, '_cls' inside a plain dict, bad type); (h) HISTORIES on one object: repeated writes "
         'through different transports in both orders, a fresh object vs the same object, in-place edits through the public API (residues, sequence/'
@@ -43,7 +44,7 @@ TRUSTED = ['CPython json text layer: json.dump calls default() exactly on non-na
            'Attr.__init__/__setitem__/update (meta.py:31-74), Location.__init__ and property setters (fts.py:84-149), LocationTuple.__new__ '
            '(fts.py:152-180), Feature.__init__ (fts.py:281-287), FeatureList.__init__ (fts.py:411-420), BioSeq.__init__ (seq.py:213-235), '
            'BioBasket.__init__ (seq.py:647-661); read glue seqs=BioBasket(seqs); seq.meta._fmt=fmt (_io/main.py:327-330)',
-           'file transports, encodings and archive handling of write()/read()/tofmtstr()/fromfmtstr() (exercised by every case through 7 transports, '
+           'file transports, encodings and archive handling of write()/read()/tofmtstr()/fromfmtstr() (exercised by every case through 12 transports, '
            'not modelled; C03); the head of the written text (brace, quoted key, separator, value) is modelled as text_head and checked on every case']
 ASSUMPTIONS = ['Python str restricted to Latin-1 code points; dict keys are str',
                'object graphs reachable through the constructors: residues upper-case ASCII (BioSeq.__init__ upper-cases; seq.str.lower() '
@@ -62,7 +63,7 @@ LEVEL_TEXT = ('Machine-checked Coq theorems over all object graphs of the domain
               'ValueError/KeyError/AssertionError (+AttributeError from sugar.read). The hand-written model of encoder, hook and the constructors '
               'the hook runs (including their hand-written-file paths: defaults, locations as lists, start/stop keywords, sorting, type inference, id '
               'keyword, nested containers) is tied to sugar by differential testing through the real write()/read()/tofmtstr()/fromfmtstr() incl. the '
-              'JSON text layer on every run (exhaustive strand x defect box, random graphs through 7 transports, state histories on shared and '
+              'JSON text layer on every run (exhaustive strand x defect box, random graphs through 12 transports incl. glob patterns and archives, state histories on shared and '
               'edited objects, hand-written trees with exception classes), and its constants (class tuple, vars() of each class, constructor '
               'signatures, sniffer constants, module globals) are regenerated from /repo and pinned.')
 LEVEL_NOTE = ('Trusted: Coq kernel/vm_compute, tools/gen_data.py + tools/gens/c14.py (constants), the correspondence harness, CPython json/kwargs/enum. '
@@ -291,7 +292,8 @@ def canon(v):
     return v
 
 
-VIAS = ['file', 'str', 'latin1', 'ascii', 'utf8', 'strfmt', 'ext']
+VIAS = ['file', 'str', 'latin1', 'ascii', 'utf8', 'strfmt', 'ext', 'glob', 'zip', 'tar', 'arch', 'gztar']
+_ARCH = {'zip': 'zip', 'tar': 'tar', 'arch': True, 'gztar': 'gztar'}          # write(..., archive=...)
 _ENC = {'latin1': 'latin-1', 'ascii': 'ascii', 'utf8': 'utf-8'}
 
 
@@ -299,10 +301,20 @@ def write_text(b, via='file'):
     """SJSON text (str or bytes as the transport carries it) written through the public entry point of the transport"""
     if via in ('str', 'strfmt'):
         return b.tofmtstr('sjson')
+    if via in _ARCH:
+        d = tempfile.mkdtemp(prefix='C14-', dir='/tmp')
+        try:
+            b.write(os.path.join(d, 'x.sjson'), archive=_ARCH[via])
+            names = os.listdir(d)
+            assert len(names) == 1 and names[0].startswith('x.sjson.'), names
+            with open(os.path.join(d, names[0]), 'rb') as f:
+                return [names[0], f.read().decode('latin-1')]     # archive file name and bytes
+        finally:
+            shutil.rmtree(d, ignore_errors=True)
     fd, fn = tempfile.mkstemp(prefix='C14-', suffix='.sjson', dir='/tmp')
     os.close(fd)
     try:
-        if via == 'file':
+        if via in ('file', 'glob'):
             b.write(fn, fmt='sjson')
         elif via == 'ext':
             b.write(fn)                                   # format from the file extension
@@ -320,6 +332,19 @@ def read_text(text, via='file'):
         return BioBasket.fromfmtstr(text)
     if via == 'strfmt':
         return BioBasket.fromfmtstr(text, fmt='sjson')
+    if via in _ARCH or via == 'glob':
+        d = tempfile.mkdtemp(prefix='C14-', dir='/tmp')
+        try:
+            if via == 'glob':                                     # a glob pattern matching exactly the one file
+                with open(os.path.join(d, 'x.sjson'), 'wb') as f:
+                    f.write(text)
+                return read(os.path.join(d, '*.sjson'))
+            name, data = text
+            with open(os.path.join(d, name), 'wb') as f:
+                f.write(data.encode('latin-1'))
+            return read(os.path.join(d, name))                    # the archive is unpacked and read through the glob branch
+        finally:
+            shutil.rmtree(d, ignore_errors=True)
     fd, fn = tempfile.mkstemp(prefix='C14-', suffix='.sjson', dir='/tmp')
     os.close(fd)
     try:
@@ -336,7 +361,7 @@ def roundtrip(b, via='file'):
     text = write_text(b, via)
     from sugar._io.sjson import COMMENT
     head = '{"_fmtcomment": "' + COMMENT
-    got = text if isinstance(text, str) else text.decode('latin-1')
+    got = head if isinstance(text, list) else text if isinstance(text, str) else text.decode('latin-1')
     assert got.startswith(head), 'written text does not start with the comment entry (text_head of the model): %r' % got[:70]
     return read_text(text, via)
 
